@@ -35,9 +35,12 @@ def verification(i):
             oks = len(re.findall(r"^ok\s", txt, re.M))
             out[nm] = {"packages_ok": oks, "failed_tests": fails[:10]}
     return out
+WT = "/tmp/seeded_meta_wt"
 def run_checks(i):
-    env = dict(os.environ)
-    r = subprocess.run(["git", "-C", "/repo", "apply", f"{S}/{i}/patch.diff"], capture_output=True, text=True)
+    """applies the change to a scratch worktree (so concurrent runs on /repo are not disturbed) and runs the checks against it"""
+    if not os.path.isdir(WT):
+        subprocess.run(["git", "-C", "/repo", "worktree", "add", "-q", "--detach", WT, "HEAD"], check=True)
+    r = subprocess.run(["git", "-C", WT, "apply", f"{S}/{i}/patch.diff"], capture_output=True, text=True)
     if r.returncode != 0:
         return {"error": "patch does not apply: " + r.stderr[:200]}
     try:
@@ -46,12 +49,13 @@ def run_checks(i):
         for prop in sorted({k.split("-")[0] for k in T}):
             if "--all" not in sys.argv and prop != own:
                 continue
-            p = subprocess.run(["/verif/bin/sdnsverif", "-property", prop, "-verif", "/tmp/seeded_ev"], capture_output=True, text=True)
+            p = subprocess.run(["/verif/bin/sdnsverif", "-property", prop, "-verif", "/tmp/seeded_ev", "-repo", WT, "-nomutants"], capture_output=True, text=True)
             keys = re.findall(r"^\s+key=(.*)$", p.stdout, re.M)
             res[prop] = {"exit": p.returncode, "reported": sorted(set(keys))[:12]}
         return res
     finally:
-        subprocess.run(["git", "-C", "/repo", "checkout", "--", "."])
+        subprocess.run(["git", "-C", WT, "checkout", "--", "."])
+        subprocess.run(["git", "-C", WT, "clean", "-fdq"])
 os.makedirs("/tmp/seeded_ev/evidence", exist_ok=True)
 if not os.path.exists("/tmp/seeded_ev/checker"):
     os.symlink("/verif/checker", "/tmp/seeded_ev/checker")
@@ -100,6 +104,49 @@ W2 = {
  "C20-w2B": ("middleware/dns64/dns64.go negativeAAAATTL", "`soa.Minttl > 0 && soa.Minttl < ttl` lost its second half: MINIMUM whenever non-zero", "SOA TTL below SOA MINIMUM and A TTL above the SOA TTL"),
 }
 T.update(W2)
+W3 = {
+ "C01-w3A": ("middleware/resolver/resolver.go Resolver.answer", "FilterRRsToZone(resp.Ns, signer) moved after VerifyWildcardAnswerForZoneWithWork: an unsigned out-of-zone NSEC satisfies the wildcard next-closer proof, replayed wildcard data is served with AD=1", "on-path tamperer replaying a genuine wildcard RRSIG over an existing name plus a forged out-of-zone NSEC straddling the query name"),
+ "C01-w3B": ("middleware/cache/entry_wire_chase.go composeWireChase", "the `if !ad { ClearAD }` step merged into the CD handling: the body keeps the alias entry's AD while info.AuthenticatedData is false, so edns never clears it", "cached bare-CNAME alias with AD=1, separately cached AD=0 target, wire-born request on the wire chase route"),
+ "C02-w3A": ("middleware/resolver/dnssec/nsec.go closestEncloserFromNSEC", "max of the two shared-suffix counts became min: the wildcard is checked at a shallower encloser and the real wildcard is never required to be denied", "a wildcard below the apex (*.b.zone) and a reply built from two genuine signed NSECs"),
+ "C02-w3B": ("middleware/resolver/resolver.go Resolver.authority", "NSEC/NSEC3 proof sets filtered with the queried zone instead of the chosen signer: unsigned NSECs owned in the parent are accepted for the child's denial", "signed parent and child on one server plus a tampered NXDOMAIN with the child's SOA and forged parent-owned NSECs"),
+ "C03-w3A": ("middleware/cache/failure_cache.go failureQuestionHash + LookupWire (two edits)", "the CD dimension dropped from the failure hash and the entry.question.CD == cd re-check removed: a CD=1 cached SERVFAIL is served to a CD=0 wire-born client", "CD=1 query ending in a cacheable SERVFAIL, then a CD=0 undecoded query for the same question within the backoff"),
+ "C03-w3B": ("middleware/cache/entry_wire_chase.go Cache.collectWireChase", "entryMatchesWireQuestion replaced by an inline name/type/class comparison: cd and scope of a hop are no longer checked", "wire-born request whose exact hit is a bare alias plus a hop stored under a colliding key for another audience"),
+ "C04-w3A": ("middleware/cache/denial_proof_cache.go denialProofResponse", "the synthesised denial's expiry/TTL no longer start from soa.expires: a replaced shorter-lived SOA does not bound the reply; the request-tree bound is set too late", "two admissions for one zone, the second replacing the shared SOA with a shorter-lived one, then a query answered from an NSEC of the first"),
+ "C04-w3B": ("middleware/cache/store.go Store.ReplaceIfCurrent", "CompareAndDelete + build + unconditional Set instead of build + pointer CompareAndSwap: a late refresh overwrites a newer client write", "a client-path SetFromResponse for the same key landing between the claim and the publish"),
+ "C05-w3A": ("middleware/cache/entry_wire_chase.go Cache.serveChaseHit", "the per-entry limiter charge moved ahead of the lease/compose/size checks: a chase that is charged and then declines is charged again on replay", "cache ratelimit on, cached CNAME chain, composed reply larger than the client's UDP size, ServeRawInline then ServeRawReplay"),
+ "C05-w3B": ("middleware/request.go Request.parseWireOPT", "keepalive length check `!= 0 && != 2` became `> 2`: a one-octet keepalive the library rejects is admitted to the wire path", "an OPT carrying option 11 with length exactly 1"),
+ "C06-w3A": ("middleware/edns/edns.go (*EDNS).serveWire deferred release", "a job-owned writer slot is no longer zeroed (only references dropped): cookieRaw/hasCookieRaw survive to the next request on the job", "strict ingress, a query with a COOKIE then a query with an OPT but no cookie on the same job"),
+ "C06-w3B": ("server/udp_engine.go acceptHeader", "the QR test moved behind the opcode and section-count reject tests: a response-shaped packet with a foreign opcode is answered (reflection loop)", "QR=1 combined with a non-query opcode or out-of-range counts"),
+ "C07-w3A": ("internal/dnsclient/conn.go (*Conn).Exchange", "a bound of 8 stray datagrams exits the ID-matching loop with err == nil and the last mismatched datagram", "at least 9 wrong-ID datagrams with the right question before the genuine reply"),
+ "C07-w3B": ("middleware/cache/store.go Store.ReplaceIfCurrent", "the refresh builds the entry from resp instead of the filtered message: an out-of-zone chain tail is cached and served as a complete answer", "prefetch of a hot name whose upstream reply carries an out-of-zone chain tail"),
+ "C08-w3A": ("middleware/resolver/resolver.go Resolver.processDelegation", "leaseDeadline instead of childDeadline handed to lookupV4Nss: an aborted NS-address lookup leaves a provisional delegation that outlives the ancestor's lease", "nested referral with long TTL under a short ancestor lease, glue-less lookup aborted by deadline/cancel/work limit"),
+ "C08-w3B": ("middleware/cache/cache.go Cache.additionalAnswer (NXDOMAIN branch)", "lineage.inherit() removed: an alias of a bare NXDOMAIN target no longer inherits the target's delegation lease", "CNAME whose target returns NXDOMAIN with empty sections and a target lease shorter than the alias entry's life"),
+ "C09-w3A": ("middleware/resolver/auto_trust_anchor.go Resolver.AutoTA", "the tombstone-precedence scan runs only when state was seeded from config", "crash between the tombstone write and the state-file write, then restart"),
+ "C09-w3B": ("middleware/resolver/auto_trust_anchor.go stageRevocationSelfSignatures", "state filter `Valid || Missing` became `Valid`: Missing + RevBit is never staged, the revoked key stays trusted", "history VALID → absent → reappears with REVOKE and a self-signature"),
+ "C10-w3A": ("server/tcp_stream.go tcpStream.reset + server/tcp_engine.go serveConn release (two edits)", "reset scrubs the buffers only when conn == nil and the release only nils conn: unconsumed pipelined frames of client A are served on client B's connection", "a session ending with leftover fill bytes and the next connection drawing the same stream from the pool"),
+ "C10-w3B": ("middleware/edns/edns.go (*EDNS).serveWire deferred cleanup", "job-owned writer slot not zeroed (cookie reset only): cookieRaw/hasCookieRaw stale", "strict path, slab reuse, previous query with a cookie, next with OPT but no cookie"),
+ "C11-w3A": ("middleware/cache/cache.go Cache.ServeDNS", "the leader's DoneGeneration moved into the unwind closure registered after the expired-at-election early return", "a request valid at ingress but expired on reaching the cache, first for its key"),
+ "C11-w3B": ("middleware/resolver/resolver.go groupLookup leader closure", "the global resolutionSlots release became explicit after r.lookup: the per-zone-quota shed return leaks the slot", "a zone at its in-flight quota while more questions for that zone arrive"),
+ "C12-w3A": ("middleware/resolver/handler.go + middleware/failover/failover.go (two edits)", "work-limit SERVFAILs no longer tagged request-local, and failover's ledger-latch guard replaced by a check of that tag: an over-budget tree is rescued by the fallback resolver", "enforce mode, fallback servers configured, a non-outbound budget exhausted"),
+ "C12-w3B": ("middleware/cache/cache.go Cache.additionalAnswer", "`cnameDepth := 10` moved below the lookup: label: the hop cap resets every hop", "alias chain longer than 10 hops of distinct names, firewall not enforcing"),
+ "C13-w3A": ("middleware/resolver/resolver.go Resolver.lookup", "early-exit condition re-parenthesised to `len(responseErrors) > 2 || (level < 2 && NXDOMAIN)`: three error replies end the lookup and a zone failure is recorded", "zone with ≥4 authority addresses, three lame ones answering before the healthy one"),
+ "C13-w3B": ("middleware/cache/cache.go cacheableResolutionFailure", "contextutil.EffectiveError(ctx) == nil became ctx.Err() == nil: a SERVFAIL written when the deadline elapsed but the timer has not fired is recorded as shared failure state", "the socket deadline winning the race against the context timer"),
+ "C14-w3A": ("middleware/resolver/dnssec/rsa.go rsaVerifyPKCS1v15", "the `c.Cmp(n) >= 0` range check dropped: sig + n is accepted as a second valid signature", "RSA key with exponent above 2^31 and a forged signature = genuine + modulus"),
+ "C14-w3B": ("middleware/resolver/dnssec/ds_digest.go oversizedKeyMaterial + dsDigestMatches (two edits)", "the material-counting walk for wrapped keys removed and the post-decode length re-check dropped: a line-wrapped oversized DNSKEY matches a DS the library would not produce", "both edits plus a CR/LF-wrapped key with more than 4092 octets of material"),
+ "C15-w3A": ("internal/wire/pack.go TryPack", "defer state.release() moved after the packInto success check, the decline path does a bare Put: a stale compression dictionary poisons the next pack", "a message failing inside packInto followed by a compressible message sharing a name, same pooled state"),
+ "C15-w3B": ("internal/wire/pack.go packState.packInto", "the selected-OPT shim applied only in the additional section: the same *dns.OPT aliased from Answer/Ns goes out with the caller's stale TTL", "selected OPT also referenced from Answer/Ns and rcode above 15 or stale bits in the OPT TTL"),
+ "C16-w3A": ("internal/cache/segment_uint64_map.go SegmentUInt64Map.Clear", "per-segment count.Add(-n) replaced by one count.Store(0) after the loop", "a Set landing in an already-cleared segment during Clear"),
+ "C16-w3B": ("internal/cache/uint64_unsafe_map.go UInt64Map.EvictKeysAt", "the `&& skip != 0` guard on the out-of-band zero-key eviction dropped: Add(0, v) at capacity evicts key 0", "key exactly 0 inserted over capacity with fewer than two other entries in its segment"),
+ "C17-w3A": ("middleware/accesslist/accesslist.go New", "open default chosen when the compiled set is empty instead of when the configured list is empty", "a non-empty access list whose every entry is unparsable"),
+ "C17-w3B": ("middleware/pipeline.go autoWire + middleware/accesslist/accesslist.go ServeDNS (two edits)", "the prefetch sub-pipeline built including client-only handlers and the Internal() pass-through dropped: internal sub-queries are denied by the client access list", "both edits, a restrictive list not covering the internal source, the prefetch route"),
+ "C18-w3A": ("middleware/blocklist/blocklist.go persist", "writes go through a bufio.Writer whose Flush error is logged but not acted on: sync, close and rename still happen", "a write fault part-way through the temp file (ENOSPC, quota, EFBIG)"),
+ "C18-w3B": ("middleware/blocklist/blocklist.go Exists + updater.go loadInitial (two edits)", "direct-match fast path ahead of the whitelist check, static entries inserted before the whitelist is loaded: a whitelisted name that is exactly a static block entry is blocked", "both edits and a config with blocklist tracker.example.com, whitelist example.com"),
+ "C19-w3A": ("middleware/edns/edns.go ResponseWriter.WriteMsg", "stripECS runs only when ecsPolicy != nil: an upstream-supplied ECS option is relayed to the client", "policy nil (default) and an upstream attaching ECS unsolicited"),
+ "C19-w3B": ("internal/ecs/policy.go Build + middleware/edns/edns.go buildECSPolicy (two edits)", "min_scope range checks moved into a validate() whose error still returns the policy, and edns keeps it: edns forwards subnets while the cache runs scope-unaware", "both edits and an [ecs] block whose only defect is min_scope_v4 > 32 or min_scope_v6 > 128"),
+ "C20-w3A": ("middleware/dns64/dns64.go isDNSSECFailure", "dnsutil.GetEDE (first EDE only) instead of scanning all options: a SERVFAIL whose DNSSEC EDE is not first is synthesised over", "upstream SERVFAIL with several EDE options, the DNSSEC one not first"),
+ "C20-w3B": ("middleware/dns64/config.go compileConfig", "the default-to-64:ff9b::/96 block moved after the hasWellKnown()-guarded exclusion parsing: special-use IPv4 ranges are translated under the defaulted prefix", "the well-known prefix in effect only by default and a target in a special-use IPv4 range"),
+}
+T.update(W3)
 for i, (where, breaks, needs) in sorted(T.items()):
     d = f"{S}/{i}"
     if not os.path.isdir(d):
@@ -110,7 +157,7 @@ for i, (where, breaks, needs) in sorted(T.items()):
     for root, _, fs in os.walk(f"{d}/demo"):
         for f in fs:
             demos.append(os.path.relpath(os.path.join(root, f), f"{d}/demo"))
-    meta.update({"property": i.split("-")[0], "wave": 2 if "-w2" in i else 1, "changed": where, "breaks": breaks, "needs_to_manifest": needs,
+    meta.update({"property": i.split("-")[0], "wave": 3 if "-w3" in i else (2 if "-w2" in i else 1), "changed": where, "breaks": breaks, "needs_to_manifest": needs,
                  "demo_files": sorted(demos), "author": "independent sub-agent given only the property text and a scratch worktree",
                  "confirmed_by": "tools/verify_seeded.sh in a scratch worktree of /repo HEAD: patch applies and builds; existing tests of the touched packages with the change; demo with the change (must FAIL); demo without it (must PASS)",
                  "verification": verification(i)})
@@ -120,3 +167,6 @@ for i, (where, breaks, needs) in sorted(T.items()):
         meta["detected_by_own_property_check"] = bool(own.get("exit") == 1)
         print(i, "detected" if meta["detected_by_own_property_check"] else "MISSED", own.get("reported", [])[:3])
     json.dump(meta, open(mp, "w"), indent=1)
+
+if os.path.isdir(WT):
+    subprocess.run(["git", "-C", "/repo", "worktree", "remove", "--force", WT])
